@@ -25,7 +25,7 @@ RULE = ("cases = one cppcheck invocation each: generated project (planted findin
 EXPLANATION = ("Lean theorems about the whole exit-code chain (CppCheckLogger::reportErr, per-file return values, the three executors' "
                "accumulation, both whole-program passes, unmatchedSuppression stage, --safety, int->status truncation) for every run: "
                "status = error exit code <=> a printed finding is not exitcode-suppressed, under explicit decidable hypotheses; proved "
-               "counterexamples for the two input classes where the shipped code deviates (F9, F25b) and for duplicate texts. Tie: "
+               "counterexamples kept for the two statements that were repaired (F9 a59832c, F25b 4c58edf) and for duplicate texts. Tie: "
                "fail-closed extraction of the chain's statements + CLI correspondence. The per-file analysis and the matching of a "
                "suppression against a finding are parameters (reference runs / real SuppressionList answers).")
 THEOREMS = ["Cppcheck.ExitCode.exit_iff_partial", "Cppcheck.ExitCode.exit_iff_patched", "Cppcheck.ExitCode.exit_else_zero",
@@ -39,6 +39,7 @@ TEMPLATE = "--template={id}|{file}|{line}|{column}|{severity}|{message}"
 WPIDS = {"unusedFunction", "staticFunction"}
 KEY_F9 = "unmatched-ignores-exitcode-suppressions"
 KEY_CC = "check-config-exit-code"
+PATCHED = dict(unmatchedNofail=True, checkConfigLogger=True)     # the main model: Cppcheck.ExitCode.patched
 
 
 # ---- translator: statements of the chain ---------------------------------------------------------------------
@@ -592,7 +593,7 @@ class Evaluator:
                 toks += [str(len(fe))] + fe
             toks += ["wp1", str(len(wp1_enc))] + wp1_enc + ["wp2", str(len(wp2_enc))] + wp2_enc + ["um", str(len(um_enc))] + um_enc
             return " ".join(toks)
-        variants = [self.variant, dict(self.variant, unmatchedNofail=True), dict(self.variant, checkConfigLogger=True)]
+        variants = [self.variant, dict(self.variant, unmatchedNofail=False), dict(self.variant, checkConfigLogger=False)]
         rcm, mout, merr = core.run_lines(self.drv, [], [model_line(v) for v in variants])
         if len(mout) != 3 or any(not o.startswith("status=") for o in mout):
             raise core.CheckBroken("drv_c25: %s %s" % (mout, merr[-300:]))
@@ -624,18 +625,16 @@ class Evaluator:
 
 
 def classify(r, variant):
-    """known-finding class of a P_impl failure (None = unknown => VIOLATION)"""
+    """class of a P_impl failure: premise:* = outside the property's statement; anything else is a violation (the two keys
+    name the regressions of the fixed defects F9 / F25b in the replay; a fixed entry suppresses nothing)"""
     c = r["case"]
     if c.get("safety"):
         return "premise:safety"
     if c.get("fault"):
         return "premise:lost-pipe"
-    real = r["rc"]
-    if r["real"] != r["model"]:
-        return None            # the model does not explain the run: never absorb
-    if not variant["unmatchedNofail"] and r["um"] and r["um_all_nofail"] and r["alt_f9"] == r["expected"] and real != r["expected"]:
+    if r["um"] and r["um_all_nofail"] and r["rc"] == r["alt_f9"] and r["rc"] != r["expected"]:
         return KEY_F9
-    if not variant["checkConfigLogger"] and c.get("checkcfg") and r["alt_cc"] == r["expected"] and real != r["expected"]:
+    if c.get("checkcfg") and r["rc"] == r["alt_cc"] and r["rc"] != r["expected"]:
         return KEY_CC
     return None
 
@@ -676,11 +675,17 @@ def run(ctx, res):
     core.prove(ctx, res, MODULES, THEOREMS)
     # ---- T1/T2
     variant, errs = extract_chain(core.REPO)
-    res.oblig("T1:variant-of-the-two-patch-points", variant["unmatchedNofail"] is not None and variant["checkConfigLogger"] is not None,
-              "translation", "; ".join(errs))
+    # the model the check runs is the chain with both fixes (a59832c, 4c58edf); seeing the old statement shape again is a regression
+    t1_ok = variant["unmatchedNofail"] is True and variant["checkConfigLogger"] is True
+    t1_detail = "; ".join(errs)
+    if variant["unmatchedNofail"] is False:
+        t1_detail += " | check_internal again sets the exit status from reportUnmatchedSuppressions without the exitcode suppressions (pre-a59832c statement)"
+    if variant["checkConfigLogger"] is False:
+        t1_detail += " | checkInternal's --check-config branch again returns 0 (pre-4c58edf statement)"
+    res.oblig("T1:fixed-statements-at-the-two-patch-points", t1_ok, "translation", t1_detail)
     res.oblig("T2:exit-code-chain-statements", not errs, "translation", "; ".join(errs))
-    res.extra["variant"] = variant
-    v = dict(unmatchedNofail=bool(variant["unmatchedNofail"]), checkConfigLogger=bool(variant["checkConfigLogger"]))
+    res.extra["variant_seen"] = variant
+    v = dict(PATCHED)
     drv = ctx.driver("drv_c25")
     harness = ctx.harness("c25")
     runner = Runner(ctx, ctx.cppcheck)
@@ -789,8 +794,7 @@ def search(ctx, res, ev, mism, v):
 
 
 def replay(ctx, res, rp):
-    variant, errs = extract_chain(core.REPO)
-    v = dict(unmatchedNofail=bool(variant["unmatchedNofail"]), checkConfigLogger=bool(variant["checkConfigLogger"]))
+    v = dict(PATCHED)
     ev = Evaluator(ctx, res, Runner(ctx, ctx.cppcheck), ctx.harness("c25"), ctx.driver("drv_c25"), v)
     pdir = os.path.join(ctx.tmp, "replay")
     write_project(pdir, rp["project"])
@@ -800,7 +804,11 @@ def replay(ctx, res, rp):
     print("model  %s" % r["model"])
     print("P_impl expects status %s" % r["expected"])
     bad = r["kind"] == "run" and r["expected"] is not None and r["rc"] != r["expected"]
+    k = classify(r, v) if r["kind"] == "run" else None
+    if bad and k and k.startswith("premise:"):
+        bad = False
+        print("outside the property's statement (%s)" % k)
     if bad:
-        print("VIOLATION property=C25 replay=(replayed) class=%s" % classify(r, v))
+        print("VIOLATION property=C25 replay=(replayed) class=%s" % k)
     print("replay: %s" % ("still fails" if bad else "passes"))
     return 1 if bad else 0
